@@ -157,6 +157,11 @@ class C17(Prop):
             for a in pool:
                 args = a if b not in ("min", "max") else "%s, %s" % (a, rng.choice(pool))
                 out.append(case("return %s(%s);" % (b, args), None, "any-type"))
+        # random built-in calls (every arity 0-4, every argument type, fields of the object) judged against the model
+        import gen
+        for _ in range(30000 if tier == "thorough" else 300):
+            src = gen.builtin_program(rng)
+            out.append(Case("run", gen.struct_case(rng, src, ["prepare:" + rng.choice(["opt", "noopt"]), "exec:0"]), "random-builtins", note=src))
         return out
 
 PROP = C17()
